@@ -21,7 +21,8 @@ def key(case, variant, tag, step):
 
 def variants(idx):
     return dict(engine=["joblib", "h5netcdf"][idx % 5 == 0], ext=[True, False, True, "dotted"][idx % 4], via_add_ds=(idx % 4 == 2),
-                other_harvester=(idx % 2 == 1), percall_engine=(idx % 3 == 2))
+                other_harvester=(idx % 2 == 1), percall_engine=(idx % 3 == 2),
+                offset=[0, 10 ** 9, 0][idx % 3], second_var=(idx % 2 == 0))
 
 
 def run(rep):
@@ -72,6 +73,9 @@ def run(rep):
         ("long", dict(avals=[1, 2, 3], bvals=[1, 2, 3], vers=V, max_steps=6 if q else 8, acts=FULL),
          dict(num=300 if q else 5000), None),
     ]
+    # the function gains a second output in a new session (all calls synced, no third dimension)
+    emits.append(("twovars", dict(avals=[1, 2], bvals=[1, 2], vers=V, max_steps=3 if q else 4, acts=CORE),
+                  dict(num=1000 if q else 6000), None))
     import random
     for name, kw, sim, sample in emits:
         e = harvest.run_model("MC_C05_" + name, spec="SpecH", record=True, emit="EmitH", workers=1,
@@ -83,7 +87,10 @@ def run(rep):
         rep.note("%s: %d histories emitted, %d replayed" % (name, len(e.cases), len(cases)))
         pts = points(kw["avals"], kw["bvals"])
         for c in cases:
-            jobs.append((c, variants(idx), pts))
+            v = variants(idx)
+            if name == "twovars":
+                v["second_var"] = True
+            jobs.append((c, v, pts))
             idx += 1
     results = common.pmap(harvest._hjob, jobs)
     harvest.collect(rep, results, key)
